@@ -582,27 +582,50 @@ func (in *c24Inst) Fingerprint() string {
 	return fmt.Sprintf("%s/%d/%v/r%d/%v", hex.EncodeToString(h[:]), len(b), in.fresh, rs, in.replFresh)
 }
 
-func c24Alphabet(thorough bool) []vx.Op {
+func c24Tr(ns, b int) vx.Op {
+	return vx.Op{Name: "tr", Args: []int64{int64(ns), int64(b)}, S: c24Spaces[ns].String() + " " + c24Batches[b].name}
+}
+
+// c24Alphabet: variant 0 = the full alphabet of the tier; variant 1 = a reduced alphabet for the deeper
+// phase A of the thorough tier (column namespace with every batch kind, row namespace with the
+// repeat/long/growth batches, one op in a second index).
+func c24Alphabet(thorough bool, variant int) []vx.Op {
 	c24Init()
 	var a []vx.Op
+	if variant == 1 {
+		for _, b := range []int{0, 1, 2} {
+			a = append(a, c24Tr(0, b))
+		}
+		a = append(a, vx.O("reopen"), vx.O("rsync"), vx.O("rsweep"), vx.O("rrestart"))
+		for _, b := range []int{3, 4, 5, 6} {
+			a = append(a, c24Tr(0, b))
+		}
+		for _, b := range []int{1, 3, 6} {
+			a = append(a, c24Tr(1, b))
+		}
+		a = append(a, c24Tr(2, 0))
+		return a
+	}
 	nb := 8
 	if thorough {
 		nb = 9
 	}
-	tr := func(ns, b int) vx.Op {
-		return vx.Op{Name: "tr", Args: []int64{int64(ns), int64(b)}, S: c24Spaces[ns].String() + " " + c24Batches[b].name}
-	}
 	for b := 0; b < 3; b++ {
-		a = append(a, tr(0, b), tr(1, b))
+		a = append(a, c24Tr(0, b), c24Tr(1, b))
 	}
 	a = append(a, vx.O("reopen"), vx.O("rsync"), vx.O("rsweep"), vx.O("rrestart"))
 	for b := 3; b < nb; b++ {
-		a = append(a, tr(0, b), tr(1, b))
+		a = append(a, c24Tr(0, b), c24Tr(1, b))
 	}
 	for b := 0; b < 2; b++ {
-		a = append(a, tr(2, b), tr(3, b))
+		a = append(a, c24Tr(2, b), c24Tr(3, b))
 	}
 	return a
+}
+
+func c24Harness(variant int) *vx.Harness {
+	th := os.Getenv("VERIF_TIER") == "thorough"
+	return &vx.Harness{Alphabet: c24Alphabet(th, variant), New: func() vx.Instance { return c24New() }, Key: c24Key}
 }
 
 // c24Key: failing operation (with its batch), discrepancy kind, context (sorted set of earlier ops).
@@ -631,9 +654,9 @@ func c24Key(p []vx.Op, got, want string) string {
 			break
 		}
 	}
-	ctx := map[string]bool{}
+	ctx := map[string]bool{} // kinds of earlier operations only: one root cause = one or a few keys
 	for _, o := range p[:len(p)-1] {
-		ctx[name(o)] = true
+		ctx[o.Name] = true
 	}
 	var names []string
 	for n := range ctx {
@@ -682,9 +705,9 @@ func c24BigUnit(unit []int, expired func() bool) (evals int64, distinct []string
 	}
 	path = append(path, tr(bc.ns, bc.batch))
 	desc := vx.PathString(path) + fmt.Sprintf("; rsweep(every byte split, part %d/%d)", part, c24BigParts)
-	for _, o := range path {
+	for i, o := range path {
 		if g, w := in.Apply(o); g != w {
-			return 1, nil, []c24PxCustomViol{{c24Key(path, g, w), desc, g, w}}
+			return 1, nil, []c24PxCustomViol{{c24Key(path[:i+1], g, w), vx.PathString(path[:i+1]), g, w}}
 		}
 	}
 	in.sweepPart, in.sweepParts, in.expired = part, c24BigParts, expired
@@ -699,16 +722,22 @@ func c24BigUnit(unit []int, expired func() bool) (evals int64, distinct []string
 
 func TestVerif_C24(t *testing.T) {
 	th := os.Getenv("VERIF_TIER") == "thorough"
-	h := &vx.Harness{Alphabet: c24Alphabet(th), New: func() vx.Instance { return c24New() }, Key: c24Key}
+	h := c24Harness(0)
+	c24PxVariant = c24Harness
 	c24PxCustom = c24BigUnit
 	if c24PxChild(h) {
 		return
 	}
 	c := vx.NewCheck("C24", "model_checking",
-		"all operation sequences over the alphabet up to the phase-A depth on a fresh real TranslateFile (+ real replicas fed by the real Reader/replicate), then BFS over canonical (primary log, replica log length, built-by-replay flags) states; then every byte split of every big entry; distinct = distinct canonical end states")
+		"all operation sequences over the alphabet up to the phase-A depth on a fresh real TranslateFile (+ real replicas fed by the real Reader/replicate); then every byte split of every big entry; distinct = distinct canonical (primary log, replica log length, built-by-replay flags) end states")
 	kv := map[string]string{}
 	t0 := time.Now()
-	c.AddStates(int64(c24PxRunDFS(c, h, c.Pick(3, 4), kv)))
+	ends := c24PxRunDFS(c, h, 0, 3, kv)
+	if th {
+		ends += c24PxRunDFS(c, c24Harness(1), 1, 4, kv)
+	}
+	c.AddStates(int64(ends))
+	c.Bound("phaseA", "v0: full alphabet of the tier, depth 3; v1 (thorough): reduced 15-op alphabet, depth 4")
 	c.Extra("phaseA_wall_s", time.Since(t0).Seconds())
 	// No state-merged phase B here: every writing operation appends to the log, which is part of the
 	// canonical state, so distinct histories of writes never merge (measured: BFS to depth 3 = the DFS
@@ -716,7 +745,8 @@ func TestVerif_C24(t *testing.T) {
 	t0 = time.Now()
 	var units [][]int
 	for i, bc := range c24BigCases(true) {
-		if bc.batch == 8 && !th {
+		// quick: the column namespace after a small entry (2 boundaries), the row namespace alone
+		if !th && (bc.batch == 8 || bc.prelude != (bc.ns == 0)) {
 			continue
 		}
 		for p := 0; p < c24BigParts; p++ {
